@@ -141,6 +141,19 @@ impl World {
                 .filter(|t| matches!(lim, FV::Null) || matches!(ref_cmp(&ds.prop(*t, "id"), &lim), Some(o) if o != std::cmp::Ordering::Greater))
                 .collect();
         }
+        if self.sverif_rules && edge == "opt" {
+            // `opt(x: Int, y: String)`: every parameter nullable and without a declared default (so a bare
+            // `opt` has an all-null parameter map): the `next` neighbours with id >= x (if x is not null)
+            // and s = y (if y is not null)
+            let x = params.get("x").cloned().unwrap_or(FV::Null);
+            let y = params.get("y").cloned().unwrap_or(FV::Null);
+            return ds
+                .out(v, "next")
+                .into_iter()
+                .filter(|t| matches!(x, FV::Null) || matches!(ref_cmp(&ds.prop(*t, "id"), &x), Some(o) if o != std::cmp::Ordering::Less))
+                .filter(|t| matches!(y, FV::Null) || ref_eq(&ds.prop(*t, "s"), &y))
+                .collect();
+        }
         ds.out(v, edge)
     }
 }
